@@ -491,3 +491,76 @@ def depeq_cases(seed, n, start=0):
         lines += ["case " + cid] + body + ["end"]
         meta[cid] = dict(family="depeq", shape=sh, pricing=pricing)
     return lines, meta
+
+
+# ------------------------------------------------------------------------------------------------
+# highly degenerate LPs: many ties in the ratio test (anti-cycling rule of get_exiting_base_index / textbook_entering_index)
+
+def fam_cone(rng):
+    """a cone / pyramid: at the apex at least d+2 constraints are tight (the d sign restrictions or shifted bounds, plus k >= 2 supporting
+    planes through the apex, some duplicated or scaled), optionally capped by  sum (x - apex) <= c ; zero right-hand sides when the apex
+    is the origin; objective random, parallel to a face, or a combination of faces"""
+    d = rng.randint(3, 5)
+    origin = rng.random() < 0.7
+    v = [0] * d if origin else [rng.randint(0, 2) for _ in range(d)]
+    cons = []
+    for i in range(d):
+        cons.append((">=", unit(d, i), -v[i]))
+    planes = []
+    for _ in range(rng.randint(2, 4)):
+        a = rrow(rng, d, -6, 6, 0.9); planes.append(a)
+    rows = [(">=", a, -_dot(a, v)) for a in planes]
+    for _ in range(rng.randint(0, 2)):       # duplicated / scaled / summed supporting planes
+        r = rng.random()
+        if r < 0.4: a = list(rng.choice(planes))
+        elif r < 0.7: m = rng.choice([2, 3]); a = [m * x for x in rng.choice(planes)]
+        else: a1, a2 = rng.choice(planes), rng.choice(planes); a = [x + y for x, y in zip(a1, a2)]
+        if any(a): rows.insert(rng.randint(0, len(rows)), (">=", a, -_dot(a, v)))
+    cap = rng.random() < 0.75
+    if cap:
+        c = rng.choice([1, 1, 2, 3])
+        rows.append((">=", [-1] * d, sum(v) + c))
+    r = rng.random()
+    if r < 0.5: cons = cons + rows
+    elif r < 0.75: cons = rows + cons
+    else:
+        cons = cons + rows; rng.shuffle(cons)
+    r = rng.random()
+    if r < 0.5: obj = rrow(rng, d, -6, 6, 0.9)
+    elif r < 0.75: m = rng.choice([1, 2, -1]); obj = [m * x for x in rng.choice(planes)]
+    else: a1, a2 = rng.choice(planes), rng.choice(planes); obj = [x + y for x, y in zip(a1, a2)]
+    if not any(obj): obj = unit(d, 0)
+    ints = subset(rng, d, "some") if (cap and rng.random() < 0.1) else []
+    return dict(dim=d, cons=cons, ints=ints, obj=(obj, rng.randint(-1, 1)), mode=rng.choice(["max", "max", "min"]))
+
+
+def shape_objlater(rng, p, pricing):
+    """all the constraints, a first resolution with the null objective, then the objective; the other direction; the other pricings"""
+    L = ["new %d" % p["dim"], "ctl " + pricing]
+    if p["ints"]: L.append(ints_cmd(p["ints"]))
+    if rng.random() < 0.5:
+        L.append("addcs %d %s" % (len(p["cons"]), " ".join(con(c) for c in p["cons"])))
+    else:
+        for c in p["cons"]: L.append("addc " + con(c))
+    L += ["mode " + p["mode"], rng.choice(["solve", "issat", "fpoint"]), "obj " + lin(*p["obj"]), "solve", "oval", "opoint",
+          "mode " + ("min" if p["mode"] == "max" else "max"), "solve", "oval"]
+    if rng.random() < 0.5:
+        L += ["ctl " + rng.choice(PRICINGS), "obj " + lin(rrow(rng, p["dim"], -6, 6), 0), "solve", "oval"]
+    return L
+
+
+def degenerate_cases(seed, n, start=0):
+    rng = random.Random(seed)
+    lines, meta = [], {}
+    for k in range(n):
+        pricing = ["T", "F", "E", "T", "F"][k % 5]
+        p = fam_cone(rng)
+        r = rng.random()
+        if r < 0.35: body = shape_oneshot(rng, p, pricing); sh = "oneshot"
+        elif r < 0.65: body = shape_objlater(rng, p, pricing); sh = "objlater"
+        elif r < 0.85: body = shape_onebyone(rng, p, pricing); sh = "onebyone"
+        else: body = shape_resolve(rng, p, pricing); sh = "resolve"
+        cid = "c%d" % (start + k)
+        lines += ["case " + cid] + body + ["end"]
+        meta[cid] = dict(family="cone", shape=sh, pricing=pricing)
+    return lines, meta
